@@ -45,7 +45,10 @@ func c17Peer(args []string) int {
 
 func c17PeerLoop(r io.Reader, w io.Writer, mode string) int {
 	if mode == "sink" {
-		time.Sleep(10 * time.Minute)
+		// never read; go away when the harness process is gone
+		for i := 0; i < 120 && os.Getppid() != 1; i++ {
+			time.Sleep(time.Second)
+		}
 		return 0
 	}
 	buf := make([]byte, 65536)
